@@ -20,7 +20,7 @@ import copy, json, os, random, re, shutil, subprocess, time
 from collections import Counter
 from concurrent.futures import ThreadPoolExecutor
 from common import *
-import c12, c15, corpus, families, mutants, tv
+import c12, c15, corpus, families, gast, mutants, tv
 
 LEVEL = "model_checking"
 TIME_LIMIT_S = 60
@@ -438,7 +438,8 @@ def run(tier, rep):
     cases = tv.prepare_cases(fam, workdir("c04-fam"))
     fam_reqs = [{"id": "fam#" + c["id"], "path": c["path"]} for c in cases]
     multi = {"fam#" + c["id"] for c in cases if c.get("extra_files")}
-    base = [c for c in cases if not c.get("extra_files") and c.get("expect") != "reject"]
+    # (a program given as text has no tree to inject an error into - every "variant" of it would be a copy of the program itself)
+    base = [c for c in cases if not c.get("extra_files") and c.get("expect") != "reject" and not isinstance(c["prog"], gast.TextProgram)]
     allm = []
     for c_ in base:
         try:
@@ -446,11 +447,12 @@ def run(tier, rep):
         except Exception:
             pass
     sel = rnd.sample(allm, min(len(allm), 2500 if quick else 60000))
-    mt = []
+    mt, mt_base = [], []
     for c_, m in sel:
         q = mutants.apply(c_["prog"], m)
         if q is not None:
             mt.append(q.render())
+            mt_base.append("fam#" + c_["id"])     # the program the variant was derived from (see the identities below)
     add_texts("illtyped", mt)
 
     reqs = [{"id": i, "text": t, "dir": memdir} for i, t in inputs.items()] + fam_reqs
@@ -802,6 +804,12 @@ def run(tier, rep):
                     twin = by_id.get("fam#" + rid.split("#")[1])
                     if twin is not None and twin[1].get("verdict") == "panic" and twin[1].get("at") == r.get("at"):
                         src_ = "fam#" + rid.split("#")[1]
+                if cls == "illtyped":
+                    # a one-edit variant of a family program that itself panics at the same site shows that program's defect again, not a
+                    # new one: same identity (a variant that panics where its base does not, or elsewhere, keeps the identity `illtyped`)
+                    twin = by_id.get(mt_base[int(rid.split("#")[1])])
+                    if twin is not None and twin[1].get("verdict") == "panic" and r.get("verdict") == "panic" and twin[1].get("at") == r.get("at"):
+                        src_ = twin[0]["id"]
                 ident = f"{pr.split(':')[1]}:{where}:{src_}" if r["verdict"] in ("panic", "signal", "abort") else f"timeout:{cls}:{named}".rstrip(":")
             else:
                 ident = f"{pr}:{cls}" + (":" + rid.split("#")[-1] if cls.startswith("web-") else "")
